@@ -54,25 +54,45 @@ def render_ret(av):
 class Behaviour(Auto):
     name = "behaviour"
 
-    def __init__(self, record_prims=("advance", "set_mark", "line_at_offset", "give_up", "give_up_at", "request", "buf", "buf_len", "buf_ptr", "is_at_end", "is_complete", "check_io_error", "io_error", "mark")):
+    def __init__(self, sym_labels=False, record_prims=("advance", "set_mark", "line_at_offset", "give_up", "give_up_at", "request", "buf", "buf_len", "buf_ptr", "is_at_end", "is_complete", "check_io_error", "io_error", "mark")):
         self.transitions = set()
         self.record_prims = set(record_prims)
+        self.sym_labels = sym_labels
 
     def initial(self):
         return ("entry", None)
+
+    def _symlabel(self, where):
+        """'#<fn>:<var>+<d>' when the offset operand is var + const in its function (R3 of C08)"""
+        if not self.sym_labels:
+            return ""
+        from .sym import sym as _sym
+        fn, bb = where[1], where[2]
+        t = fn.term(bb)
+        if len(t.get("args", [])) < 2:
+            return "#%s:c+0" % fn.id
+        e = _sym(fn).operand(t["args"][1])
+        from .c08 import affine1
+        a = affine1(e)
+        if a is None:
+            if e[0] == "call":
+                from .common import norm as _norm
+                return "#%s:call:%s" % (fn.id, _norm(e[2]))
+            return "#%s:?" % fn.id
+        return "#%s:%s+%d" % (fn.id, "c" if a[0] is None else a[0], a[1])
 
     def event(self, state, ev, where):
         src, g = state
         if ev[0] == "prim":
             name = ev[1]
             if name == "look":
-                dst = "look@" + show_int(ev[2][1])
+                dst = "look@" + show_int(ev[2][1]) + self._symlabel(where)
                 self.transitions.add((src, g, dst))
                 return (dst, (True, ALL))
             if name in self.record_prims:
                 arg = ""
                 if name in ("advance", "line_at_offset") and len(ev[2]) > 1:
-                    arg = show_int(ev[2][1])
+                    arg = show_int(ev[2][1]) + self._symlabel(where)
                 dst = "%s(%s)" % (name, arg)
                 self.transitions.add((src, g, dst))
                 return (dst, None)
@@ -91,9 +111,9 @@ class Behaviour(Auto):
         return state
 
 
-def behaviour(facts, inst_key, args, extra_models=None):
+def behaviour(facts, inst_key, args, extra_models=None, sym_labels=False):
     """returns (transitions set, engine).  transitions include ('..','..','ret:<v>') rows"""
-    auto = Behaviour()
+    auto = Behaviour(sym_labels=sym_labels)
     eng = Engine(facts, auto)
     saved = dict(A.MODELS)
     A.MODELS.update(ITER_MODELS)
